@@ -29,7 +29,7 @@ def gates(tier):
             'restriction:blacklist': 100, 'restriction:blacklist:user_override': 15, 'restriction:whitelist': 150, 'restriction:whitelist_none': 100,
             'restriction:required': 100, 'restriction:forbidden': 150, 'restriction:instructor_var': 150,
             'restriction:numbered': 100, 'restriction:suffix': 80, 'restriction:name': 150,
-            'restriction:sibling': 60, 'restriction:sibling_via_sampler': 60, 'aborted_parse_before_cheat': 30, 'restriction:sum_blacklist': 80, 'partial_credit_cheats': 200, 'restriction_combinations': 400, 'restricted_grader_as_subgrader': 300}
+            'restriction:sibling': 60, 'restriction:sibling_via_sampler': 60, 'aborted_parse_before_cheat': 30, 'restriction:sum_blacklist': 80, 'partial_credit_cheats': 200, 'restriction_combinations': 400, 'restricted_grader_as_subgrader': 300, 'resubmissions': 2000}
 
 
 def credited(out):
@@ -86,6 +86,12 @@ def judge_cheat(ctx, restriction, twin, restricted, formula, allowed_errors, wit
                       'refused with %s(%s), expected one of %r' % (name, str(r.exc)[:120], allowed_errors), wit)
         return
     ctx.count('cheats_refused')
+    # the same submission again, to the same grader object: refused again
+    r2 = call(restricted)
+    ctx.ev()
+    ctx.count('resubmissions')
+    if r2.returned or type(r2.exc).__name__ not in allowed_errors:
+        ctx.violation('C09:%s:resubmission_not_refused' % restriction, 'submitted a second time: %r' % (r2.brief(),), dict(wit, second_outcome=r2.brief()))
 
 
 def judge_honest(ctx, restriction, g, formula, wit, want_grade=None):
@@ -261,7 +267,16 @@ def run_names(ctx):
             # author's answer itself uses the instructor variable through a dependent form: c*x^2/c + 1
             from mitxgraders import DependentSampler
             a2 = ({'expect': 'c*x^2/c+1', 'grade_decimal': 1}, {'expect': '2*(c*x^2/c+1)', 'grade_decimal': 0.5})
-            which = rng.choice(['variable', 'constant', 'dependent'])
+            which = rng.choice(['variable', 'constant', 'dependent', 'identity'] if cls is MatrixGrader else ['variable', 'constant', 'dependent'])
+            if which == 'identity':
+                # the identity matrix that identity_dim provides, withheld from students
+                a3 = ({'expect': 'x^2+1+0*trace(I)', 'grade_decimal': 1}, {'expect': '2*(x^2+1)', 'grade_decimal': 0.5})
+                restricted = cls(answers=a3, variables=['x'], identity_dim=2, instructor_vars=['I'])
+                twin = cls(answers=a3, variables=['x'], identity_dim=2)
+                formula = tpl.format(A=target, R=rng.choice(['trace(I)', 'det(I)', 'trace(I*I)/2']))
+                wit['instructor_var_is'] = 'identity matrix from identity_dim'
+                judge_name(ctx, 'instructor_var', twin, restricted, formula, ('UndefinedVariable',), wit, target != 'x+7')
+                continue
             if which == 'variable':
                 restricted = cls(answers=a2, variables=['x', 'c'], instructor_vars=['c'], sample_from={'c': [2, 3]})
                 twin = cls(answers=a2, variables=['x', 'c'], sample_from={'c': [2, 3]})
